@@ -481,7 +481,11 @@ impl<'a, 'ast> Visit<'ast> for Rewriter<'a> {
             return;
         }
         // R1: `use ...;` inside a body is dropped (names resolve to the shims)
-        if let Stmt::Item(syn::Item::Use(_)) = st {
+        if let Stmt::Item(syn::Item::Use(u)) = st {
+            let t = u.tree.to_token_stream().to_string();
+            if !(t.starts_with("std") || t.starts_with("core") || t.starts_with("futures")) {
+                return; // `use self::Enum::*` and the like stay
+            }
             let (s, e) = self.src.range(st.span());
             self.edit(s, e, String::new(), 0);
             self.skip_ranges.push((s, e));
@@ -1053,6 +1057,9 @@ fn main() {
                     } else if let Some(r) = dd.strip_prefix("CALL ") {
                         let (k, v) = split_arrow(r);
                         if v == "NONE" { spec.rules.call.remove(&k); } else { spec.rules.call.insert(k, v); }
+                    } else if let Some(r) = dd.strip_prefix("MACRO ") {
+                        let (k, v) = split_arrow(r);
+                        spec.rules.mac1.insert(k, v);
                     } else if let Some(r) = dd.strip_prefix("PATH ") {
                         let (k, v) = split_arrow(r);
                         spec.rules.path.insert(k, v);
